@@ -109,17 +109,21 @@ pub fn parse_monthly_rates(
     for rate in parsed.exchange_rates {
         let code_raw = rate.currency_code.trim().to_uppercase();
 
-        // Skip currencies not recognized by iso_currency (e.g., VEF - old Venezuelan Bolívar)
-        let Some(currency) = Currency::from_code(&code_raw) else {
-            continue;
-        };
+        let currency = Currency::from_code(&code_raw);
 
-        let rate_decimal =
-            Decimal::from_str(rate.rate_new.trim()).map_err(|error| FxParseError::InvalidRate {
-                code: code_raw.clone(),
-                source: rate.rate_new.clone(),
-                error,
-            })?;
+        // A non-positive rate makes the file unusable whichever row carries it, also a row
+        // whose currency is skipped below.
+        let rate_decimal = match Decimal::from_str(rate.rate_new.trim()) {
+            Ok(value) => value,
+            Err(_) if currency.is_none() => continue,
+            Err(error) => {
+                return Err(FxParseError::InvalidRate {
+                    code: code_raw.clone(),
+                    source: rate.rate_new.clone(),
+                    error,
+                });
+            }
+        };
 
         if rate_decimal <= Decimal::ZERO {
             return Err(FxParseError::NonPositiveRate {
@@ -127,6 +131,11 @@ pub fn parse_monthly_rates(
                 rate: rate_decimal,
             });
         }
+
+        // Skip currencies not recognized by iso_currency (e.g., VEF - old Venezuelan Bolívar)
+        let Some(currency) = currency else {
+            continue;
+        };
 
         let key = RateKey::new(currency, year, month);
         let minor_units = currency_minor_units(currency);
